@@ -343,7 +343,9 @@ def _add_sample_effects(ck, repo, nf):
             if tidx not in TAIL_IDX:
                 import re as _re
                 toks = lambda t_: set(_re.findall(r"[A-Za-z_][A-Za-z_0-9]*", t_))
-                if not toks(tidx) <= set().union(*[toks(t_) for t_ in TAIL_IDX]):
+                fields_ = {t_.attr for c_ in repo.mro(CQ) for m_ in [repo.method(c_, "__init__", inherited=False)] if m_ for x_ in ast.walk(m_[1]) if isinstance(x_, ast.Assign)
+                           for t_ in x_.targets if isinstance(t_, ast.Attribute) and dotted(t_.value) == "self"}
+                if not toks(tidx) <= set().union(*[toks(t_) for t_ in TAIL_IDX]) | fields_:
                     raise AnalysisError(f"{site}: tail index `{tidx[:120]}` (unrecognised form)")
             ob("R3-tail", "last-min(len,horizon)-slots", tidx in TAIL_IDX, f"[{tag}] tail index = {tidx}", f"must be the last min(episode_timesteps, horizon) written slots: {sorted(TAIL_IDX)[0]}")
             # the clear of the written slot precedes the tail store (which may re-enable that very slot)
